@@ -817,8 +817,30 @@ def h_square(ctx, eqn, a):
 
 
 def h_scatter_add(ctx, eqn, operand, indices, updates):
-    # generic scatter-add via index tracing of a plain scatter of *positions*, then accumulate
-    raise Unsupported("scatter-add on symbolic values")
+    """scatter-add with concrete indices: the target of every update element is found by running the
+    real primitive on one-hot updates; the additions are then done symbolically."""
+    prm = eqn.params
+    if is_obj(indices):
+        if not all_const(indices):
+            raise Unsupported("scatter-add with symbolic indices")
+        indices = concretize(indices, np.int64)
+    ushape = np.shape(updates)
+    N = int(np.prod(ushape)) if ushape else 1
+    oshape = np.shape(operand)
+    with jax.ensure_compile_time_eval():
+        basis = jnp.eye(N).reshape((N,) + tuple(ushape))
+        zeros = jnp.zeros(oshape)
+        idx = jnp.asarray(indices)
+        T = np.asarray(jax.vmap(lambda u: eqn.primitive.bind(zeros, idx, u, **prm))(basis))
+    out = np.array(operand if is_obj(operand) else to_obj(operand), dtype=object, copy=True)
+    upd = (updates if is_obj(updates) else to_obj(updates)).reshape(-1)
+    for e in range(N):
+        nz = np.argwhere(T[e] != 0)
+        for pos in nz:
+            pos = tuple(pos)
+            w = T[e][pos]
+            out[pos] = out[pos] + (upd[e] if w == 1 else upd[e] * P.as_v(float(w)))
+    return out
 
 
 def h_stop_gradient(ctx, eqn, a):
@@ -882,4 +904,6 @@ HANDLERS = {
     "scan": h_scan,
     "while": h_while,
     "stop_gradient": h_stop_gradient,
+    "scatter-add": h_scatter_add,
+    "scatter_add": h_scatter_add,
 }
